@@ -18,29 +18,32 @@ type Locker = sync.Locker
 type Mutex struct{ mu sync.Mutex }
 
 func (m *Mutex) Lock() {
+	zzsimrt.Point()
 	for !m.mu.TryLock() {
 		zzsimrt.Blocked()
 	}
 }
 func (m *Mutex) TryLock() bool { return m.mu.TryLock() }
-func (m *Mutex) Unlock()       { m.mu.Unlock() }
+func (m *Mutex) Unlock()       { m.mu.Unlock(); zzsimrt.Point() }
 
 type RWMutex struct{ mu sync.RWMutex }
 
 func (m *RWMutex) Lock() {
+	zzsimrt.Point()
 	for !m.mu.TryLock() {
 		zzsimrt.Blocked()
 	}
 }
 func (m *RWMutex) RLock() {
+	zzsimrt.Point()
 	for !m.mu.TryRLock() {
 		zzsimrt.Blocked()
 	}
 }
 func (m *RWMutex) TryLock() bool   { return m.mu.TryLock() }
 func (m *RWMutex) TryRLock() bool  { return m.mu.TryRLock() }
-func (m *RWMutex) Unlock()         { m.mu.Unlock() }
-func (m *RWMutex) RUnlock()        { m.mu.RUnlock() }
+func (m *RWMutex) Unlock()         { m.mu.Unlock(); zzsimrt.Point() }
+func (m *RWMutex) RUnlock()        { m.mu.RUnlock(); zzsimrt.Point() }
 func (m *RWMutex) RLocker() Locker { return (*rlocker)(m) }
 
 type rlocker RWMutex
@@ -79,6 +82,7 @@ type Pool struct {
 }
 
 func (p *Pool) Get() interface{} {
+	zzsimrt.Point()
 	p.mu.Lock()
 	if n := len(p.items); n > 0 {
 		x := p.items[n-1]
@@ -101,4 +105,5 @@ func (p *Pool) Put(x interface{}) {
 	p.mu.Lock()
 	p.items = append(p.items, x)
 	p.mu.Unlock()
+	zzsimrt.Point() // a natural preemption point: right after an object went back to the pool
 }
